@@ -240,11 +240,20 @@ def parse_assumptions(log):
     returns (closed_count, axioms:set)"""
     closed = len(re.findall(r"Closed under the global context", log))
     axioms = set()
-    for block in re.findall(r"Axioms:\n((?:.+\n?)+?)(?:\n|$)", log):
-        for line in block.split("\n"):
-            m = re.match(r"^([A-Za-z_][\w.']*)\s*:", line)
-            if m:
-                axioms.add(m.group(1))
+    in_block = False
+    for line in log.split("\n"):
+        if line.strip() == "Axioms:":
+            in_block = True
+            continue
+        if not in_block:
+            continue
+        if line.startswith((" ", "\t")) and line.strip():
+            continue            # continuation of a type
+        m = re.match(r"^([A-Za-z_][\w.']*)\s*(:.*)?$", line)
+        if m and line.strip() != "Axioms:":
+            axioms.add(m.group(1))
+        else:
+            in_block = False
     return closed, axioms
 
 
